@@ -262,7 +262,7 @@ func TestC04(t *testing.T) {
 	behs := behav.LoadEnv()
 	K, M := behav.EnvInt("VERIF_K", 2), behav.EnvInt("VERIF_M", 2)
 	seed := behav.Seed()
-	inners := []string{"edge", "array", "thresh", "comb", "runs", "runthresh", "full", "mixed"}
+	inners := []string{"edge", "array", "thresh", "comb", "runs", "runthresh", "longruns", "full", "mixed"}
 	var profs []profSel
 	if behav.Thorough() {
 		for i, in := range inners {
